@@ -131,15 +131,32 @@ def gen_problem(rng, tier="quick", **over):
     if rng.random() < 0.2 and nt >= 2:
         j = rng.randrange(nt)
         spec["target_active"][j] = False
+    if rng.random() < 0.25 and not spec.get("same_name"):
+        # names and tags that are prefixes of one another (k1 / k10 / k100, g1 / g10, t1 / t10): selecting by name or tag is a
+        # full match, 'k1' does not mean 'k10'
+        spec["names"] = ["k1", "k10", "k100", "k1000", "k10000", "k100000"][:nk]
+        spec["tags"] = ["g1" if j % 2 == 0 else "g10" for j in range(nk)]
+        spec["ttags"] = ["t1" if j % 2 == 0 else "t10" for j in range(nt)]
     over.pop("start_inside", None)
     spec.update(over)
     return spec
+
+
+def C_sel(rng, what, nk, nt, names, vtags, ttags):
+    """what enable()/disable() is given: an index, or (30 %) a tag; a name for vary_name"""
+    if what == "vary_name":
+        return rng.choice(names)
+    if rng.random() < 0.3:
+        return rng.choice(vtags if what == "vary" else ttags)
+    return rng.randrange(nk) if what == "vary" else rng.randrange(nt)
 
 
 def gen_call(rng, spec, kinds):
     """one call of the C15 alphabet (JSON-able)"""
     k = rng.choice(kinds)
     nk, nt = spec["nk"], spec["nt"]
+    names = spec.get("names") or ["k%d" % i for i in range(nk)]
+    vtags, ttags = sorted(set(spec["tags"])), sorted(set(spec["ttags"]))
     if k == "step":
         kw = {"n_steps": rng.choice([1, 1, 2, 3, 5]), "take_best": rng.random() < 0.8}
         r = rng.random()
@@ -153,11 +170,11 @@ def gen_call(rng, spec, kinds):
             kw["sing_val_cutoff"] = rng.choice([1, 2, 3])      # number of singular values kept
         r = rng.random()
         if r < 0.12 and nk >= 2:
-            kw["disable_vary"] = [rng.randrange(nk)] if rng.random() < 0.6 else "g%d" % rng.randrange(2)
+            kw["disable_vary"] = [rng.randrange(nk)] if rng.random() < 0.6 else rng.choice(vtags)
         elif r < 0.2 and nk >= 2:
-            kw["disable_vary_name"] = ["k%d" % rng.randrange(nk)]
+            kw["disable_vary_name"] = [rng.choice(names)]
         elif r < 0.3 and nt >= 2:
-            kw["disable_target"] = [rng.randrange(nt)]
+            kw["disable_target"] = [rng.randrange(nt)] if rng.random() < 0.7 else rng.choice(ttags)
         elif r < 0.35:
             kw["enable_vary"] = [rng.randrange(nk)]
         elif r < 0.4:
@@ -180,10 +197,10 @@ def gen_call(rng, spec, kinds):
         return ("tag", rng.choice(["a", "b", "c", ""]))
     if k == "enable":
         what = rng.choice(["vary", "target", "vary_name"])
-        return ("enable", what, rng.randrange(nk) if what == "vary" else rng.randrange(nt) if what == "target" else "k%d" % rng.randrange(nk))
+        return ("enable", what, C_sel(rng, what, nk, nt, names, vtags, ttags))
     if k == "disable":
         what = rng.choice(["vary", "target", "vary_name"])
-        return ("disable", what, rng.randrange(nk) if what == "vary" else rng.randrange(nt) if what == "target" else "k%d" % rng.randrange(nk))
+        return ("disable", what, C_sel(rng, what, nk, nt, names, vtags, ttags))
     if k == "clear_log":
         return ("clear_log",)
     if k == "set_knob":
